@@ -501,14 +501,11 @@ def _dict_rewrite(repo, fi, ex, t):
             r = repo.resolve_name(repo.mods[fi.file], t.name)
             from sa.core import FuncInfo
             ne = idx.expander(repo, r) if isinstance(r, FuncInfo) else None
-        if ne is None:
-            return None
-        m = idx._bind(ne.fi.node, list(t.args), t.kw)
-        fills = [s_ for s_ in ne.stores if s_.kind == "sub" and s_.base.op in ("dict", "call") and all(g.op == "loop" for g in s_.guards) and s_.guards]
-        if m is None or len(fills) != 1 or len(ne.returns) != 1 or ne.returns[0].key() != fills[0].base.key():
-            return None
-        f_ = fills[0]
-        K, V, it = idx.subst(f_.key, m), idx.subst(f_.value, m), idx.subst(f_.guards[-1].args[0], m)
+        m = idx._bind(ne.fi.node, list(t.args), t.kw) if ne is not None else None
+        fills = [s_ for s_ in ne.stores if s_.kind == "sub" and s_.base.op in ("dict", "call") and all(g.op == "loop" for g in s_.guards) and s_.guards] if ne is not None else []
+        if not (m is None or len(fills) != 1 or len(ne.returns) != 1 or ne.returns[0].key() != fills[0].base.key()):
+            f_ = fills[0]
+            K, V, it = idx.subst(f_.key, m), idx.subst(f_.value, m), idx.subst(f_.guards[-1].args[0], m)
     elif t.op == "dict" and not t.args:
         # a fresh dictionary filled in a loop of this function:  d = {}; for k, v in SRC.items(): d[K(k)] = V(v)
         fills = [s_ for s_ in ex.stores if s_.kind == "sub" and s_.base.op == "dict" and s_.base.node is t.node and
@@ -520,18 +517,26 @@ def _dict_rewrite(repo, fi, ex, t):
         # the key map may be a local helper (`rename(key)`)
         K = idx.inline(repo, fi, K, value_only=True)
         V = idx.inline(repo, fi, V, value_only=True)
-    else:
+    if K is None:
+        # any other way of filling a fresh dictionary entry by entry (in this function or in a helper) is the comprehension it
+        # amounts to (sa.terms: loop == comprehension)
+        from sa.terms import fuse_comprehensions as _fuse
+        tf = _fuse(idx.inline(repo, fi, t, value_only=True))
+        if tf.op == "dictcomp" and len(tf.args) == 3:
+            K, V, it = tf.args
+    if K is None:
         return None
     if not (it.op == "mcall" and it.name == "items"):
         return None
     el = _T("elem", None, [it])
     k0, k1 = _T("item", 0, [el]).key(), _T("item", 1, [el]).key()
+    src_key = it.args[0].key()
 
     def ph(x):
         if x.key() == k0:
             return _T("free", "KEY")
-        if x.key() == k1:
-            return _T("free", "VAL")
+        if x.key() == k1 or (x.op == "sub" and x.args[0].key() == src_key and x.args[1].key() == k0):
+            return _T("free", "VAL")     # v of `for k, v in d.items()`, also in its normal form d[k]
         if not x.args and not x.kw:
             return x
         return _T(x.op, x.name, [ph(a_) for a_ in x.args], {k_: ph(v_) for k_, v_ in x.kw.items()}, x.node)
